@@ -158,12 +158,12 @@ def c09 (c : Ctx) (prevFailed : List String) (ob : Obs) : Verdict :=
 
 /-! ## C19 -/
 
+/-- `filepath.Dir` on a clean relative path -/
 def dirOf (p : String) : String :=
-  match (p.splitOn "/").dropLast with
-  | [] => "."
-  | ds => "/".intercalate ds
+  let cs := p.toList
+  if cs.contains '/' then String.ofList (((cs.reverse.dropWhile (· != '/')).drop 1).reverse) else "."
 
-def under (dir p : String) : Bool := p == dir || (dir ++ "/").isPrefixOf p
+def under (dir p : String) : Bool := p == dir || (dir.toList ++ ['/']).isPrefixOf p.toList
 
 def joinPath (d n : String) : String := if d == "." then n else d ++ "/" ++ n
 
@@ -219,7 +219,7 @@ def jsonMatches (c : Ctx) (req : List String) (log : List (Nat × Nat)) (rs : Li
 
 def rowOf (name text : String) : String := if text.isEmpty then name else name ++ " " ++ text
 
-def rowName (row : String) : String := (row.splitOn " ").headD ""
+def rowName (row : String) : String := String.ofList (row.toList.takeWhile (· != ' '))
 
 def strictlySorted : List String → Bool
   | a :: b :: rest => decide (a < b) && strictlySorted (b :: rest)
